@@ -7,6 +7,7 @@ import common
 sys.path.insert(0, os.path.join(common.VERIF, "tx"))
 import krylovsites as txks
 import svdqn as txsq
+import krylovnorm as txkn
 
 KRYLOV_RTOL = 1e-5            # the routine's convergence test: allclose(res, new_res) with rtol=1e-5 (atol=1e-8)
 KRYLOV_TOL = 10 * KRYLOV_RTOL
@@ -89,6 +90,34 @@ for cplx in (False, True):
         same = v.tobytes() == keep.tobytes()
         print("complex=%s call %d: relative error %.3g, start vector unchanged: %s" % (cplx, call, err, same))
         bad += (err > 1e-4) or not same
+sys.exit(1 if bad else 0)
+'''
+
+NORMS = [1e-30, 1e-12, 1e-6, 1 - 1e-5, 1 - 3e-7, 1.0, 1 + 3e-7, 1 + 8e-6, 1 + 1e-4, 1e6, 1e30]
+NORM_TOL = 1e-10              # purely relative; used where the Krylov space is exhausted (breakdown / full-space exit), no absolute floor
+
+NORM_REPRO = r'''
+# expm_krylov must be homogeneous of degree 1 in the start vector and accurate in purely RELATIVE terms at every norm:
+# it normalises vstart (unconditionally), runs Lanczos from the unit vector and multiplies the result by the norm.
+# 5 x 5 complex Hermitian A (full-space exit: the Krylov approximation is exact), start vectors c * vhat with
+# |c| in {1e-30 ... 1-1e-5, 1-3e-7, 1, 1+3e-7, 1+8e-6 ... 1e30}.  exit 1 = relative error or homogeneity defect > 1e-10.
+import sys, renormalizer, numpy as np, scipy.linalg
+from renormalizer.lib import expm_krylov
+rng = np.random.default_rng(7); n = 5
+M = rng.normal(size=(n, n)) + 1j * rng.normal(size=(n, n)); H = (M + M.conj().T) / 2
+vhat = rng.normal(size=n) + 1j * rng.normal(size=n); vhat /= np.linalg.norm(vhat); vhat /= np.linalg.norm(vhat)
+bad = 0
+for dt in (-0.7j, -0.7):
+    E = scipy.linalg.expm(dt * H); amp = np.linalg.norm(E, 2)
+    unit, _ = expm_krylov(lambda x: H @ x, dt, vhat.copy())
+    for c in (1e-30, 1e-12, 1e-6, 1 - 1e-5, 1 - 3e-7, 1.0, 1 + 3e-7, 1 + 8e-6, 1 + 1e-4, 1e6, 1e30):
+        cc = c * np.exp(0.3j)
+        res, j = expm_krylov(lambda x: H @ x, dt, cc * vhat)
+        err = np.linalg.norm(res - E @ (cc * vhat)) / (abs(cc) * amp)
+        hom = np.linalg.norm(res - cc * unit) / (abs(cc) * np.linalg.norm(unit))
+        flag = err > 1e-10 or hom > 1e-10
+        print("dt=%r |c|=%-22r relative error %.3g   |kernel(c v) - c kernel(v)| / |c kernel(v)| = %.3g %s" % (dt, c, err, hom, "<-- FAIL" if flag else ""))
+        bad += flag
 sys.exit(1 if bad else 0)
 '''
 
@@ -195,7 +224,9 @@ def gen_svd_case(rng, cid, malformed=False):
     return {"id": cid, "kind": "svd", "pattern": kind, "qnl": qnl, "qnr": qnr, "qntot": qntot,
             "shape_l": factor(m), "shape_r": factor(n), "QR": QR, "system": system,
             "full": rng.random() < 0.5, "opt": rng.random() < 0.6, "complex": rng.random() < 0.4,
-            "data": rng.choice(["rand", "rand", "masked", "lowrank", "ties", "zero"]), "malformed": malformed}
+            "data": rng.choice(["rand", "rand", "masked", "lowrank", "ties", "zero"]), "malformed": malformed,
+            # NORM stream: about a third of the cases at another overall scale (complex phase for complex data)
+            "scale": rng.choice(NORMS) if rng.random() < 0.35 else 1.0, "theta": rng.uniform(0, 6.28)}
 
 
 def gen_eigh_case(rng, cid, malformed=False):
@@ -244,6 +275,26 @@ def gen_krylov_case(rng, cid, dtype_class=False):
     elif c["mat"] in ("real", "diag") and rng.random() < 0.4:
         c["vdtype"] = "real"                       # real data throughout: admissible, result real or complex by dt
     return c
+
+
+def gen_norm_cases(rng, start_id, per_norm):
+    """NORM stream: start vectors c * vhat, |c| from NORMS, complex phase; mostly tiny n (every exit exhausts the Krylov space, so the
+    result must be right to NORM_TOL in purely relative terms), a few larger n (convergence exit: homogeneity only)."""
+    out = []
+    for nv in NORMS:
+        for k in range(per_norm):
+            n = [2, 3, 5, 7, 6, 25, 4, 40, 12][k % 9]
+            c = {"id": start_id + len(out), "n": n, "bs": rng.choice([2, 3, 50]),
+                 "spec": rng.choice(["rand", "rand", "wide", "degenerate", "rankdef"]),
+                 "mat": rng.choice(["complex", "complex", "real", "diag", "blockdiag"]),
+                 "vec": rng.choice(["rand", "rand", "rand", "eigvec", "small"]),
+                 "phase": rng.choice([[1, 0], [-1, 0], [0, 1], [0, -1]]), "target": rng.choice([0.5, 3, 20]),
+                 "vdtype": "complex", "dtform": rng.choice(["float", "complex0"]), "scale": 1.0,
+                 "normval": nv, "theta": rng.choice([0.0, rng.uniform(0, 6.28)]), "cls": "main"}
+            if c["mat"] in ("real", "diag") and rng.random() < 0.4:
+                c["vdtype"] = "real"
+            out.append(c)
+    return out
 
 
 # ------------------------------------------------------------------------------------------------ Coq text
@@ -333,6 +384,7 @@ def run(ctx):
     seed = ctx.seed
     ctx.trusted += [
         "translator tx/krylovsites.py (python ast scan of every expm_krylov call; fail-closed) and its classification rules",
+        "translator tx/krylovnorm.py (prologue of expm_krylov and its kernel calls into the constants of Gen/KrylovNorm.v; fail-closed)",
         "translator tx/svdqn.py (statement-by-statement reading of svd_qn.py into the constants of Gen/SvdQnShape.v; fail-closed: unknown statements raise)",
         "hand-written models coq/Model/SvdQn.v and coq/Model/Krylov.v, tied to the code by harness/c18.py: logged blockappend arguments / argsort result / _expm_krylov call frames vs the models' vm_compute output (exact integers)",
         "witness loggers in harness/impl/c18_*.py (module-level proxies for scipy.linalg and np inside svd_qn, frame inspection in expm_krylov), NumPy/SciPy oracles",
@@ -357,6 +409,17 @@ def run(ctx):
         ctx.notes.append("translator tx/svdqn.py failed: %r" % (e,))
         ctx.regen(txsq.TARGET, txsq.render_failed(str(e)))
         broken.append("translator tx/svdqn.py (a statement of svd_qn / eigh_qn / blockappend / blockrecover / get_qn_mask is not one it knows): %s" % (str(e)[:400],))
+    nshape = None
+    try:
+        text_n, nshape = txkn.main(common.REPO)
+        ctx.regen(txkn.TARGET, text_n)
+    except Exception as e:
+        ctx.notes.append("translator tx/krylovnorm.py failed: %r" % (e,))
+        ctx.regen(txkn.TARGET, txkn.render_failed(str(e)))
+        broken.append("translator tx/krylovnorm.py (the prologue / kernel calls of expm_krylov are not of the known form): %s" % (str(e)[:400],))
+    if nshape is not None and not all(nshape.values()):
+        broken.append("C18_krylov_norm_shape (Proofs.KrylovProofs.norm_shape_ok: src_norm = ref_norm): expm_krylov no longer has the fact(s) %s (normalisation of the start vector / scaling of the result) the model and C18_krylov_homogeneous are written for"
+                      % ({k: v for k, v in nshape.items() if not v},))
     # ---------------------------------------------------------------- 2. proofs
     ok_build, log = (False, "translator failed") if sites is None else ctx.coq_make(["Proofs/SvdQnProofs.vo", "Proofs/KrylovProofs.vo"])
     ok_props = False
@@ -370,7 +433,7 @@ def run(ctx):
         broken.append("theorem(s) of Props/C18.v: " + ", ".join(o["name"] for o in ctx.obligations if not o["ok"]))
     if not ok_build:
         # the proofs did not build (e.g. src_shape <> ref_shape): the models and the generated tables are still needed for the tie
-        ctx.coq_make(["Gen/SvdQnShape.vo", "Gen/KrylovSites.vo"])
+        ctx.coq_make(["Gen/SvdQnShape.vo", "Gen/KrylovSites.vo", "Gen/KrylovNorm.vo"])
     model_ok = all(os.path.exists(os.path.join(common.COQ, *p)) for p in (("Model", "SvdQn.vo"), ("Model", "Krylov.vo"), ("Gen", "SvdQnShape.vo")))
     shape_diff = None
     if shape is not None:
@@ -436,6 +499,7 @@ def run(ctx):
     # ---------------------------------------------------------------- 4. Krylov: implementation + oracle
     kcases = [gen_krylov_case(rng, i) for i in range(n_kry)] + [gen_krylov_case(rng, n_kry + i, dtype_class=True) for i in range(n_dtype)]
     kcases += [gen_krylov_case(rng, len(kcases) + i, dtype_class="small-norm") for i in range(8)]
+    kcases += gen_norm_cases(rng, len(kcases), 6 if quick else 40)
     small_norm = {}
     kshards = chunks(kcases, max(1, (len(kcases) + 11) // 12))
     kouts = run_shards(ctx, "c18_krylov.py", [{"seed": seed, "cases": sh} for sh in kshards], 600 if quick else 1500)
@@ -474,6 +538,21 @@ def run(ctx):
         why = []
         if r["err"] > KRYLOV_TOL:
             why.append("error %.3g > %.1g" % (r["err"], KRYLOV_TOL))
+        if c.get("normval") is not None:
+            exact = r["exit"] in (0, 1)
+            if exact and r["err"] > NORM_TOL:
+                why.append("NORM: |c| = %r, Krylov space exhausted (exit %d) but relative error %.3g > %.0e" % (c["normval"], r["exit"], r["err"], NORM_TOL))
+            h = r.get("homog")
+            if not isinstance(h, float):
+                why.append("NORM: homogeneity run: %s" % (h,))
+            elif r.get("unit_it") == r["it"] and h > (NORM_TOL if exact else 1e-9):
+                why.append("NORM: not homogeneous: |kernel(c v) - c kernel(v)| / |c kernel(v)| = %.3g for |c| = %r" % (h, c["normval"]))
+            elif h > KRYLOV_TOL:
+                why.append("NORM: not homogeneous (different iteration counts %s / %s): %.3g for |c| = %r" % (r.get("unit_it"), r["it"], h, c["normval"]))
+            kstat["norm_cases"] = kstat.get("norm_cases", 0) + 1
+            kstat["norm_max_homog"] = max(kstat.get("norm_max_homog", 0.0), h if isinstance(h, float) else 1.0)
+            if exact:
+                kstat["norm_max_err_exact_exit"] = max(kstat.get("norm_max_err_exact_exit", 0.0), r["err"])
         if r["refgap"] > 1e-9:
             why.append("reference values disagree (%.3g): oracle unusable for this case" % r["refgap"])
         if r["lanczos_inner"] > 1e-9:
@@ -618,6 +697,16 @@ def run(ctx):
         lst = struct_bad + witness_bad
         ctx.violation("svd_qn-structure", "correspondence Model/SvdQn.v vs svd_qn/eigh_qn (gather index sets, dims, factor shapes, labels, sort permutation)",
                       {"mismatches": len(lst), "first": lst[:3]}, found=False)
+    k_norm = [b for b in k_bad if any(w.startswith("NORM:") for w in b.get("why", []))]
+    if k_norm:
+        k_bad = [b for b in k_bad if b not in k_norm]
+        rc_n, out_n = common.sh([common.IMPL_PY, "-c", NORM_REPRO], env=common.impl_env(), cwd="/", timeout=300)
+        mini_n = min(k_norm, key=lambda b: b["case"]["n"])
+        ctx.violation("krylov-norm-homogeneity",
+                      "the Krylov exponential is not homogeneous of degree 1 in the start vector / misses its purely relative tolerance at some norm of the start vector (normalisation of vstart)",
+                      {"failing": len(k_norm), "norms_failing": sorted({b["case"]["normval"] for b in k_norm}), "smallest": mini_n, "repro_output": out_n[-1500:]}, found=True,
+                      repro=NORM_REPRO if rc_n != 0 else GENERIC_REPRO % (json.dumps({"seed": seed, "cases": [mini_n["case"]]}), os.path.join(impl_script, "c18_krylov.py"),
+                                                                         "r['error'] or not isinstance(r.get('homog'), float) or r['homog'] > 1e-9 or (r['exit'] in (0, 1) and r['err'] > %g)" % NORM_TOL))
     k_inp = [b for b in k_bad if any("start vector passed in was modified" in w or "second call" in w for w in b.get("why", []))]
     if k_inp:
         k_bad = [b for b in k_bad if b not in k_inp or len(b.get("why", [])) > sum(1 for w in b["why"] if "start vector passed in was modified" in w or "second call" in w)]
